@@ -91,6 +91,9 @@ def allowedMutators : List (String × String × String) := [
   ("jlib/array.go", "sortNumberArray", "sort.SliceStable"),   -- results = make in this call
   ("jlib/array.go", "sortStringArray", "sort.SliceStable"),
   ("jlib/array.go", "Shuffle", "rand.Intn"),
+  ("jlib/number.go", "Round", "new(big.Rat).SetString"),     -- a big.Rat allocated in this call
+  ("jlib/number.go", "Round", "new(big.Rat).SetInt"),
+  ("jlib/number.go", "Round", "v.SetInt"),                    -- v = new(big.Rat) in this call
   ("jlib/number.go", "Random", "rand.Float64"),
   ("jlib/jlib.go", "init", "rand.Seed")]
 
